@@ -80,7 +80,11 @@ func (ex *Exec) builtinCall(fr *Frame, st *State, site ssa.Instruction, b *ssa.B
 // fresh backing array holding a copy of the prefix. Appended elements are stored one by one when
 // their number is a literal, otherwise the element cells of the result are unconstrained.
 func (ex *Exec) appendOp(fr *Frame, st *State, site ssa.Instruction, c *ssa.CallCommon, args []Val) Val {
-	sl := c.Args[0].Type().Underlying().(*types.Slice)
+	return ex.appendTo(st, c.Args[0].Type().Underlying().(*types.Slice), args)
+}
+
+// appendTo is append(args[0], args[1]...) for a slice of type sl (args[1]: a slice or, for []byte, a string).
+func (ex *Exec) appendTo(st *State, sl *types.Slice, args []Val) Val {
 	s := args[0].(*Agg)
 	arr, off, ln, cp := s.F[0].(*Term), s.F[1].(*Term), s.F[2].(*Term), s.F[3].(*Term)
 	var n *Term
